@@ -163,6 +163,9 @@ def cases(draw):
         "default_encoding": default_encoding, "nl": nl,
         "body": body_bits, "value": draw(st.sampled_from(texts + ["<v>"])),
         "flag": draw(st.booleans()),
+        # the boolean attributes are configured explicitly (which must not
+        # change anything else about how the document is treated)
+        "explicit_bool": draw(st.integers(0, 3)) == 0,
         "cls": draw(st.sampled_from(["str", "str", "file"])),
         "lead": lead, "lies": lies,
         # an old meta element left behind in a comment (before the real
@@ -253,11 +256,15 @@ class Bytes(Part):
         if case["bom"]:
             data = BOMS[enc] + data
         cfg = {}
+        if case.get("explicit_bool"):
+            cfg["boolean_attributes"] = {"checked", "disabled"}
         if case["default_encoding"]:
             cfg["default_encoding"] = case["default_encoding"]
         env = {"v": case["value"], "flag": case["flag"]}
         info = {"document": doc, "encoding": enc, "bom": case["bom"],
-                "announce": case["announce"], "config": cfg}
+                "announce": case["announce"],
+                "config": {k: (sorted(v) if isinstance(v, set) else v)
+                           for k, v in cfg.items()}}
 
         ref = run(PageTemplate, doc, **cfg)
         if not ref.ok:
@@ -328,7 +335,12 @@ class Bytes(Part):
                 info, got=t.content_type, expected=ref_t.content_type))
         checked = 'checked="checked"' in out.value
         raw_true = 'checked="True"' in out.value
-        if case["flag"]:
+        if case["flag"] and case.get("explicit_bool"):
+            # (a configured set applies to XML documents, too)
+            if not checked:
+                return Mismatch("bytes:configured boolean attribute",
+                                dict(info, got=out.value))
+        elif case["flag"]:
             if is_xml and not raw_true:
                 return Mismatch("bytes:boolean attribute in XML mode",
                                 dict(info, got=out.value))
